@@ -35,7 +35,7 @@ fn kind_strategy(cram: bool) -> BoxedStrategy<Kind> {
     if cram {
         prop_oneof![5 => Just(0u8), 2 => Just(1u8), 2 => Just(2u8), 1 => Just(4u8)].boxed()
     } else {
-        prop_oneof![6 => Just(0u8), 2 => Just(1u8), 2 => Just(2u8), 1 => Just(3u8), 1 => Just(4u8), 2 => Just(5u8)].boxed()
+        prop_oneof![6 => Just(0u8), 2 => Just(1u8), 2 => Just(2u8), 1 => Just(3u8), 1 => Just(4u8), 2 => Just(5u8), 1 => Just(6u8)].boxed()
     }
 }
 
@@ -68,7 +68,7 @@ fn case_strategy() -> BoxedStrategy<Case20> {
             let mut seen = false;
             let mut fix = |ks: &mut Vec<Kind>| {
                 for k in ks.iter_mut() {
-                    if *k == 3 {
+                    if *k == 3 || *k == 6 {
                         if seen {
                             *k = 0;
                         }
@@ -76,13 +76,34 @@ fn case_strategy() -> BoxedStrategy<Case20> {
                     }
                 }
             };
-            let mut pre = pre;
-            let mut post = post;
+            // the deadline scenario (kind 6) needs the front-matter of a given document
+            let mut pre: Vec<Kind> = pre.into_iter().map(|k| if k == 6 { 0 } else { k }).collect();
+            let mut post: Vec<Kind> = post.into_iter().map(|k| if k == 6 { 0 } else { k }).collect();
             fix(&mut pre);
             for d in docs.iter_mut() {
                 fix(&mut d.tests);
             }
             fix(&mut post);
+            // a detached test case behind the point where the document runs out of time may or
+            // may not be started: not generated (the order of what is started is C14's subject)
+            let mut deadline_anywhere = false;
+            for d in docs.iter_mut() {
+                if let Some(s) = d.tests.iter().position(|k| *k == 6) {
+                    deadline_anywhere = true;
+                    for k in d.tests.iter_mut().skip(s + 1) {
+                        if *k == 5 {
+                            *k = 0;
+                        }
+                    }
+                }
+            }
+            if deadline_anywhere {
+                for k in post.iter_mut() {
+                    if *k == 5 {
+                        *k = 0;
+                    }
+                }
+            }
             Case20 { docs, prepend_via, append_via, pre, post, fault, pretty }
         })
         .boxed()
@@ -96,6 +117,8 @@ fn md_test(id: &str, k: Kind) -> String {
         2 => format!("# {id}\n\n```scrut\n$ {log}; echo out; (exit 3)\nout\n```\n\n"),
         3 => format!("# {id}\n\n```scrut {{timeout: 400ms}}\n$ {log}; sleep 4\n```\n\n"),
         4 => format!("# {id}\n\n```scrut\n$ {log}; exit 80\n```\n\n"),
+        // the document (total_timeout: 3s) runs out of time while scrut waits before this test case
+        6 => format!("# {id}\n\n```scrut {{wait: 3500ms}}\n$ {log}; echo out\nout\n```\n\n"),
         _ => format!("# {id}\n\n```scrut {{detached: true}}\n$ {log}\n```\n\n"),
     }
 }
@@ -117,12 +140,16 @@ struct DocModel {
     /// detached ids that must appear exactly once (executed) / must not appear
     detached_ran: Vec<String>,
     never_ran: Vec<String>,
-    /// expected result kinds; `true` = the entry may be absent (detached test)
+    /// expected result kinds (`a|b` = either); `true` = the entry may be absent (detached test)
     kinds: Vec<(&'static str, bool)>,
+    /// ids that may or may not appear in the log (the test case at which the document deadline passes)
+    log_optional: Vec<String>,
+    /// the document runs out of time: whatever is reported, the run has failed
+    deadline: bool,
 }
 
 fn model(ids: &[(String, Kind)], cram: bool) -> DocModel {
-    let mut m = DocModel { log: vec![], detached_ran: vec![], never_ran: vec![], kinds: vec![] };
+    let mut m = DocModel { log: vec![], detached_ran: vec![], never_ran: vec![], kinds: vec![], log_optional: vec![], deadline: false };
     let kind_name = |k: Kind| match k {
         0 | 5 => "success",
         1 => "malformed_output",
@@ -130,8 +157,24 @@ fn model(ids: &[(String, Kind)], cram: bool) -> DocModel {
         3 => "timeout",
         _ => "skipped",
     };
-    let stop = ids.iter().position(|(_, k)| *k == 3 || *k == 4);
+    let stop = ids.iter().position(|(_, k)| *k == 3 || *k == 4 || *k == 6);
     match stop {
+        Some(s) if ids[s].1 == 6 => {
+            // document deadline passes during the wait before test case s
+            m.deadline = true;
+            for (i, (id, k)) in ids.iter().enumerate() {
+                if i < s {
+                    if *k == 5 { m.detached_ran.push(id.clone()) } else { m.log.push(id.clone()) }
+                    m.kinds.push((kind_name(*k), *k == 5));
+                } else if i == s {
+                    m.log_optional.push(id.clone());
+                    m.kinds.push(("success|timeout", false));
+                } else {
+                    m.never_ran.push(id.clone());
+                    m.kinds.push(("timeout|skipped", *k == 5));
+                }
+            }
+        }
         Some(s) if ids[s].1 == 4 => {
             // skip: everything is reported skipped; tests up to the skipping one ran
             // (Cram runs the whole script: every command runs, then the document is skipped)
@@ -175,7 +218,7 @@ fn match_optional(got: &[String], exp: &[(&'static str, bool)]) -> bool {
         match e.split_first() {
             None => g.is_empty(),
             Some(((k, opt), rest)) => {
-                (g.first().map(|x| x == k).unwrap_or(false) && rec(&g[1..], rest)) || (*opt && rec(g, rest))
+                (g.first().map(|x| k.split('|').any(|alt| alt == x)).unwrap_or(false) && rec(&g[1..], rest)) || (*opt && rec(g, rest))
             }
         }
     }
@@ -238,6 +281,9 @@ fn check_case(c: &Case20) -> V {
             }
             if c.append_via == 1 {
                 fm.push(format!("append:\n  - {}", pathdiff(&inc.join("post.md"), if d.in_dir { &suite } else { &root })));
+            }
+            if d.tests.contains(&6) {
+                fm.push("total_timeout: 3s".to_string());
             }
             if !fm.is_empty() {
                 text.push_str(&format!("---\n{}\n---\n\n", fm.join("\n")));
@@ -325,6 +371,7 @@ fn check_case(c: &Case20) -> V {
         .label_if(c.docs.iter().any(|d| d.cram), "cram")
         .label_if(has_detached, "detached")
         .label_if(all_kinds.contains("timeout"), "timeout")
+        .label_if(models.iter().any(|m| m.deadline), "document_deadline_passes_between_test_cases")
         .label_if(all_kinds.contains("skipped"), "skipped");
     let dump = || format!("args: {:?}\n{}", &args[1..], dumps.join("\n"));
 
@@ -361,7 +408,13 @@ fn check_case(c: &Case20) -> V {
             let (d, t) = (parts[0].parse::<usize>().unwrap_or(99), parts.get(1).and_then(|x| x.parse::<usize>().ok()).unwrap_or(99));
             c.docs.get(d).and_then(|d| d.tests.get(t)) == Some(&5)
         };
-    let ordered_log: Vec<String> = log.iter().filter(|id| !is_detached_id(id)).cloned().collect();
+    let optional_ids: Vec<&String> = models.iter().flat_map(|m| m.log_optional.iter()).collect();
+    for id in &optional_ids {
+        if log.iter().filter(|l| l == id).count() > 1 {
+            return V::fail(format!("test case {id} ran more than once (log {:?})\n{}", log, dump()));
+        }
+    }
+    let ordered_log: Vec<String> = log.iter().filter(|id| !is_detached_id(id) && !optional_ids.contains(id)).cloned().collect();
     let expected_detached_total = detached_ids.len();
     let got_detached_total = log.iter().filter(|id| is_detached_id(id)).count();
     if got_detached_total != expected_detached_total {
@@ -396,12 +449,13 @@ fn check_case(c: &Case20) -> V {
     // (tests after the stop point of their document: the exact log comparison above already
     //  excludes that they ran; detached ones are covered by the total count)
     let failed = kinds.iter().filter(|k| ["malformed_output", "invalid_exit_code", "timeout", "internal_error"].contains(&k.as_str())).count();
-    let want = if failed > 0 { 50 } else { 0 };
+    // a document that ran out of time has failed, whatever is reported for its test cases
+    let want = if failed > 0 || models.iter().any(|m| m.deadline) { 50 } else { 0 };
     if run.code != Some(want) {
         return V::fail(format!("exit status {:?}, expected {want} ({failed} failed results: {:?})\n{}", run.code, kinds, dump()));
     }
     // summary line of the pretty renderer
-    if c.pretty && !has_detached && !all_kinds.contains("timeout") {
+    if c.pretty && !has_detached && !all_kinds.contains("timeout") && !models.iter().any(|m| m.deadline) {
         let p = run_with("pretty");
         let text = String::from_utf8_lossy(&p.stdout).to_string();
         let succeeded = kinds.iter().filter(|k| *k == "success").count();
